@@ -72,7 +72,7 @@ static void begin_case(const std::string& k) { curcase = k; vf::cur(k); vf::cur_
 static void bad(const std::string& sig, const std::string& desc) {
 	if (vf::known(sig)) { vf::known_hit(sig, desc + "; case " + curcase); return; }
 	int& n = sigcount[sig];
-	if (++n > 4) { vf::add(C_SUPPRESSED); return; }
+	if (++n > 2) { vf::add(C_SUPPRESSED); return; }
 	vf::violation(sig, desc, curcase);
 }
 static std::string show(const std::string& b) { return b.size() <= 40 ? "<" + vf::hex(b) + ">" : "<" + vf::hex(b.substr(0, 8)) + ".." + fmt("%d bytes", (int)b.size()) + ".." + vf::hex(b.substr(b.size() - 8)) + ">"; }
